@@ -281,6 +281,11 @@ func (w *World) lookupType(name string) types.Type {
 	}
 	t := w.TypeByKey[name]
 	if t == nil {
+		if o, ok := types.Universe.Lookup(name).(*types.TypeName); ok {
+			t = o.Type()
+		}
+	}
+	if t == nil {
 		return nil
 	}
 	for i := 0; i < ptr; i++ {
